@@ -388,11 +388,35 @@ func reifyGetField(
 	return nil
 }
 
+// enterRef marks a reference as being unpacked into a value of type t until
+// the returned function is called; a reference that is reached again for the
+// same type while it is being unpacked leads back to a setting that contains
+// it.
+func enterRef(opts *options, val value, t reflect.Type) (func(), Error) {
+	d, ok := val.(*cfgDynamic)
+	if !ok {
+		return func() {}, nil
+	}
+	key := unpackingRef{d, t}
+	if _, active := opts.unpacking[key]; active {
+		ctx := d.Context()
+		return nil, raiseCyclicErr(ctx.path("."))
+	}
+	opts.unpacking[key] = struct{}{}
+	return func() { delete(opts.unpacking, key) }, nil
+}
+
 func reifyValue(
 	opts fieldOptions,
 	t reflect.Type,
 	val value,
 ) (reflect.Value, Error) {
+	leave, cycle := enterRef(opts.opts, val, t)
+	if cycle != nil {
+		return reflect.Value{}, cycle
+	}
+	defer leave()
+
 	if t.Kind() == reflect.Interface && t.NumMethod() == 0 {
 		reified, err := val.reify(opts.opts)
 		if err != nil {
@@ -486,6 +510,12 @@ func reifyMergeValue(
 	if (old.Kind() == reflect.Ptr || old.Kind() == reflect.Interface) && old.IsNil() {
 		return reifyValue(opts, t, val)
 	}
+
+	leave, cycle := enterRef(opts.opts, val, t)
+	if cycle != nil {
+		return reflect.Value{}, cycle
+	}
+	defer leave()
 
 	baseType := chaseTypePointers(old.Type())
 
